@@ -352,7 +352,7 @@ func c18StoresField(fn *ssa.Function, dst, src string) bool {
 // c18Geometry folds the two closed-form geometry helpers of the path interpreter into polynomials.
 func c18Geometry(c *core.Check) {
 	p := c.Prog
-	r := c.Rule("R4", "path geometry in closed form: reflection(p, r) = 2p − r on both coordinates (the control point of a smooth segment), and quadraticToCubic elevates a quadratic Bézier exactly: CP1 = P0 + 2/3 (P1 − P0), CP2 = P2 + 2/3 (P1 − P2), end point P2", 2)
+	r := c.Rule("R4", "path geometry in closed form: reflection(p, r) = 2p − r on both coordinates (the control point of a smooth segment), and quadraticToCubic elevates a quadratic Bézier exactly: CP1 = P0 + 2/3 (P1 − P0), CP2 = P2 + 2/3 (P1 − P2), end point P2; ellipsePointAt is c + R(θ)·(a cos η, b sin η) and ellipsePrime its derivative in η", 4)
 	sym := core.SymP
 	twoThird := core.PolyConst(big.NewRat(2, 3))
 	if fn := p.Fn("svg", "reflection"); fn == nil {
@@ -375,6 +375,44 @@ func c18Geometry(c *core.Check) {
 			}
 		}
 		r.Cond(ok, "svg.reflection", p.Pos(fn.Pos()), "(2·px − rx, 2·py − ry)", fmt.Sprintf("folds to %s(error: %v), SVG gives (2·px − rx, 2·py − ry)", got, err))
+	}
+	// the parameterised ellipse and its derivative, with cos η / sin η uninterpreted
+	for _, e := range []struct {
+		name string
+		args []string
+		want func(s func(string) core.Poly) [2]core.Poly
+	}{
+		{"ellipsePointAt", []string{"a", "b", "sinθ", "cosθ", "η", "cx", "cy"}, func(s func(string) core.Poly) [2]core.Poly {
+			ac, bs := s("a").Mul(s("cos(η)")), s("b").Mul(s("sin(η)"))
+			return [2]core.Poly{s("cx").Add(ac.Mul(s("cosθ"))).Add(bs.Mul(s("sinθ")).Neg()), s("cy").Add(ac.Mul(s("sinθ"))).Add(bs.Mul(s("cosθ")))}
+		}},
+		{"ellipsePrime", []string{"a", "b", "sinθ", "cosθ", "η"}, func(s func(string) core.Poly) [2]core.Poly {
+			as, bc := s("a").Mul(s("sin(η)")), s("b").Mul(s("cos(η)"))
+			return [2]core.Poly{as.Mul(s("cosθ")).Neg().Add(bc.Mul(s("sinθ")).Neg()), as.Mul(s("sinθ")).Neg().Add(bc.Mul(s("cosθ")))}
+		}},
+	} {
+		fn := p.Fn("svg", e.name)
+		if fn == nil || len(fn.Params) != len(e.args) {
+			r.Anchor("svg." + e.name)
+			continue
+		}
+		var args []core.AV
+		for _, a := range e.args {
+			args = append(args, sym(a))
+		}
+		f := &core.Folder{MaxDepth: 1}
+		res, err := f.Fold(fn, args)
+		want := e.want(sym)
+		ok := err == nil && len(res) == 2
+		got := ""
+		if ok {
+			for i := 0; i < 2; i++ {
+				g, isP := res[i].(core.Poly)
+				ok = ok && isP && g.Equal(want[i])
+				got += core.AVString(res[i]) + " "
+			}
+		}
+		r.Cond(ok, "svg."+e.name, p.Pos(fn.Pos()), "("+want[0].String()+", "+want[1].String()+")", fmt.Sprintf("folds to %s(error: %v); the ellipse c + R(θ)·(a cos η, b sin η) gives (%s, %s)", got, err, want[0].String(), want[1].String()))
 	}
 	if fn := p.Fn("svg", "quadraticToCubic"); fn == nil {
 		r.Anchor("svg.quadraticToCubic")
